@@ -13,7 +13,7 @@ FALSIFIED_KINDS = [
     "unreachable", "index out of bounds", "possible", "might fail", "requires not satisfied",
 ]
 # units whose single loop query is heavy (measured: chain_write needs about 60 s of solver time)
-RLIMIT = {"chain_write": "400", "chain_replace": "400"}
+RLIMIT = {"chain_write": "400", "chain_replace": "400", "chain_clear": "100"}
 RESOURCE_KINDS = ["rlimit", "resource limit", "timed out", "timeout"]
 
 
@@ -73,6 +73,7 @@ def run_unit(unit, repo=None, keep=False):
         # ---------------- diagnostics
         blocks = re.split(r"\n(?=error|note|warning|help)", err)
         hard = []
+        resource = []
         for b in blocks:
             if not b.startswith("error"):
                 continue
@@ -91,15 +92,22 @@ def run_unit(unit, repo=None, keep=False):
             clause_lines = [lines[g - 1].strip() for g in gut if 0 < g <= len(lines)]
             low = kind.lower()
             if any(k in low for k in RESOURCE_KINDS):
-                rep["status"] = "undecided"
-                rep["reason"] = "verus resource limit: " + head
-                return rep
+                # a query that ran out of resources decides nothing by itself; it makes the unit undecided unless another
+                # diagnostic of the same run falsifies a named obligation (a definite verdict of the solver)
+                resource.append(head)
+                continue
             if any(k in low for k in FALSIFIED_KINDS):
                 obl = names[0] if names else "%s.%s[%s]" % (unit, fn or "?", kind[:50])
                 rep["failed"].append({"obligation": obl, "clause": " | ".join(clause_lines[:4]), "function": fn,
                                       "diag": b[:3000], "text": originals.get(fn, "")[:6000]})
             else:
                 hard.append(head)
+        if resource and not [f for f in rep["failed"] if not f["obligation"].startswith(unit + ".")]:
+            rep["status"] = "undecided"
+            rep["reason"] = "verus resource limit: " + resource[0]
+            return rep
+        if resource:
+            rep["note"] = "some queries ran out of resources: " + "; ".join(resource[:2])
         if hard:
             rep["status"] = "undecided"
             rep["reason"] = "verus rejected the generated file (unsupported construct / type error after upstream edit): " + "; ".join(hard[:3])
